@@ -59,7 +59,7 @@ def raw_range(sig):
 # ---------------------------------------------------------------------------------------------------------------
 # what a format can carry (the envelope); everything not listed is not generated for that format
 ENV = {
-    "dbc": dict(ecus=True, ecu_comments=True, frame_comments=True, signal_comments=True, multiline=True, senders="many", receivers=True,
+    "dbc": dict(same_number_pairs=True, ecus=True, ecu_comments=True, frame_comments=True, signal_comments=True, multiline=True, senders="many", receivers=True,
                 motorola=True, signed=True, floats=True, mux=["none", "none", "simple", "extended"], values=True, neg_values=True,
                 attributes=["net", "ecu", "frame", "signal"], attr_types=["INT", "HEX", "FLOAT", "STRING", "ENUM"], unit_max=32, nonascii=True,
                 limits=True, ext=True, unique_signals=False, static_with_mux=True, min_len=1, mux_named=True, groups=True, value_tables=True, empty_string_attr=True, long_names=True),
@@ -68,20 +68,20 @@ ENV = {
                 attributes=["net", "ecu", "frame", "signal"], attr_types=["INT", "HEX"], unit_max=16, nonascii=True,
                 limits=True, ext=True, unique_signals=False, static_with_mux=True, min_len=1, mux_named=True, no_comma=True,
                 limits_times_factor=True),
-    "sym": dict(ecus=False, ecu_comments=False, frame_comments=True, signal_comments=True, multiline=False, senders="none", receivers=False,
+    "sym": dict(same_number_pairs=True, ecus=False, ecu_comments=False, frame_comments=True, signal_comments=True, multiline=False, senders="none", receivers=False,
                 motorola=True, signed=True, floats=True, mux=["none", "none", "simple"], values=True, neg_values=False,
                 attributes=[], attr_types=[], unit_max=16, nonascii=True,
                 limits=True, ext=True, unique_signals=False, static_with_mux=False, min_len=1, mux_named=False, sym_switches=True),
-    "kcd": dict(ecus=True, ecu_comments=False, frame_comments=True, signal_comments=True, multiline=True, senders="many", receivers=True,
+    "kcd": dict(same_number_pairs=True, ecus=True, ecu_comments=False, frame_comments=True, signal_comments=True, multiline=True, senders="many", receivers=True,
                 motorola=True, signed=True, floats=True, mux=["none", "none", "simple"], values=True, neg_values=False,
                 attributes=[], attr_types=[], unit_max=32, nonascii=True,
                 limits=True, ext=True, unique_signals=False, static_with_mux=True, min_len=1, mux_named=True, mux_plain=True),
-    "json": dict(ecus=True, ecu_comments=True, frame_comments=True, signal_comments=True, multiline=True, senders="many", receivers=True,
+    "json": dict(same_number_pairs=True, ecus=True, ecu_comments=True, frame_comments=True, signal_comments=True, multiline=True, senders="many", receivers=True,
                  motorola=True, signed=True, floats=True, mux=["none", "none", "simple"], values=True, neg_values=True,
                  attributes=["net", "frame", "signal"], attr_types=["INT", "HEX", "FLOAT", "STRING", "ENUM"], unit_max=32, nonascii=True,
                  limits=True, ext=True, unique_signals=False, static_with_mux=True, min_len=1, mux_named=True, start_values=True,
                  empty_string_attr=True),
-    "arxml": dict(ecus=True, ecu_comments=True, frame_comments=True, signal_comments=True, multiline=False, senders="many", receivers=True,
+    "arxml": dict(same_number_pairs=True, ecus=True, ecu_comments=True, frame_comments=True, signal_comments=True, multiline=False, senders="many", receivers=True,
                   motorola=True, signed=True, floats=True, mux=["none", "none", "simple"], values=True, neg_values=False,
                   attributes=[], attr_types=[], unit_max=32, nonascii=True,
                   limits=True, ext=True, unique_signals=True, static_with_mux=True, min_len=1, mux_named=False, mux_plain=True,
@@ -232,15 +232,29 @@ def gen_desc(rng, fmt, size="small"):
     nfr = rng.randrange(1, 4 if size == "small" else 7)
     for _ in range(nfr):
         ext = env["ext"] and rng.random() < 0.4
+        twin_of = None
+        if env.get("same_number_pairs") and desc["frames"] and rng.random() < 0.4:
+            # a standard and an extended frame with the same identifier NUMBER are two different frames (11-bit / 29-bit identifier)
+            cand = [f for f in desc["frames"] if f["id"] < 0x800 and (f["id"], not f["extended"]) not in used_ids]
+            if cand:
+                twin_of = rng.choice(cand)
         while True:
+            if twin_of is not None:
+                fid, ext = twin_of["id"], not twin_of["extended"]
+                break
             fid = rng.randrange(1, 2 ** 29 if ext else 2 ** 11)
+            if ext and rng.random() < 0.25:
+                fid = rng.randrange(1, 0x800)      # small numbers are legal 29-bit identifiers too
+            elif ext and rng.random() < 0.6:
+                fid |= 0x800
             if rng.random() < 0.08:
                 fid = 0         # identifier 0 is a legal identifier ('falsy' value audit)
-            if ext and rng.random() < 0.6:
-                fid |= 0x800
-            if fid not in used_ids:       # id numbers unique across standard/extended keeps every format's key space apart
+            if env.get("same_number_pairs"):
+                if (fid, bool(ext)) not in used_ids:
+                    break
+            elif not any(i == fid for i, _ in used_ids):   # this format addresses frames by the bare number somewhere (DBF sections)
                 break
-        used_ids.add(fid)
+        used_ids.add((fid, bool(ext)))
         L = rng.choice([1, 2, 3, 4, 5, 6, 7, 8, 8, 8, 8])
         fname = pick_name(rng, used_f, "F")
         fr = dict(name=fname, id=fid, extended=bool(ext), length=L, senders=[], comment=None, attributes=attr_values("frame"), signals=[])
